@@ -68,7 +68,11 @@ def ersStrategy (rs : ERS) (labelled : List String) (role : String) (sp : StratP
       let start := rollingUpdateStartTime rs.status now
       let removes := if now - start < 5 * minute then labelled else []
       some (r, [], removes, false)
-    | .err _ => some ({}, [], [], true)
+    | .err _ =>
+        -- early error return of ManageDeployment (a rolling-update parameter that does not parse): no
+        -- status was computed; Reconcile keeps the current one, with the conditions already updated,
+        -- and reports the error in it (F15 repair: it used to dereference the nil status)
+        some ({ newStatus := some { sp.newStatus with conds := rollingConds sp now } }, [], [], true)
     | .panic => none
   else if role == "canary" then
     match manageCanaryStatus sp now with
@@ -348,13 +352,28 @@ end Finish
 
 /-! ### The strategy result per role -/
 
+/-- the strategy result of the active role when `ManageDeployment` returns its early error: nothing
+planned, the current status with the three rolling conditions updated. -/
+def ersErrResult (sp : StratParams) (now : Time) : StratResult :=
+  { newStatus := some { sp.newStatus with conds := rollingConds sp now } }
+
+/-- the early-error result plans no pod write. -/
+theorem ersErrResult_empty (sp : StratParams) (now : Time) :
+    (ersErrResult sp now).createE = [] ∧ (ersErrResult sp now).deleteE = [] ∧
+    (ersErrResult sp now).cleanupDeletes = [] ∧ (ersErrResult sp now).unscheduledNodes = [] :=
+  ⟨rfl, rfl, rfl, rfl⟩
+
+/-- the active role: either `ManageDeployment` succeeded with `r`, or it returned its early error
+and the result is `ersErrResult` (no label patch, strategy error reported). -/
 theorem ersStrategy_active {rs : ERS} {labelled : List String} {sp : StratParams} {now : Time}
     {r : StratResult} {adds removes : List String} {se : Bool} {st0 : ERSStatus}
     (h : ersStrategy rs labelled "active" sp now = some (r, adds, removes, se))
-    (hs : r.newStatus = some st0) :
-    manageDeployment sp now now false = .ok r ∧ adds = [] ∧
-    removes = (if now - rollingUpdateStartTime rs.status now < 5 * minute then labelled else []) ∧
-    se = false := by
+    (_hs : r.newStatus = some st0) :
+    (manageDeployment sp now now false = .ok r ∧ adds = [] ∧
+      removes = (if now - rollingUpdateStartTime rs.status now < 5 * minute then labelled else []) ∧
+      se = false) ∨
+    ((∃ msg, manageDeployment sp now now false = .err msg) ∧
+      r = ersErrResult sp now ∧ adds = [] ∧ removes = [] ∧ se = true) := by
   unfold ersStrategy at h
   simp only [beq_self_eq_true, if_true] at h
   split at h
@@ -362,12 +381,22 @@ theorem ersStrategy_active {rs : ERS} {labelled : List String} {sp : StratParams
     simp only [Option.some.injEq, Prod.mk.injEq] at h
     obtain ⟨h1, h2, h3, h4⟩ := h
     subst h1
-    exact ⟨hr0, h2.symm, h3.symm, h4.symm⟩
-  · simp only [Option.some.injEq, Prod.mk.injEq] at h
-    obtain ⟨h1, _⟩ := h
-    subst h1
-    cases hs
+    exact Or.inl ⟨hr0, h2.symm, h3.symm, h4.symm⟩
+  · rename_i msg hmsg
+    simp only [Option.some.injEq, Prod.mk.injEq] at h
+    obtain ⟨h1, h2, h3, h4⟩ := h
+    exact Or.inr ⟨⟨msg, hmsg⟩, h1.symm, h2.symm, h3.symm, h4.symm⟩
   · cases h
+
+/-- a full-run write list built from the early-error result holds no pod write. -/
+theorem ersFinish_errResult_noPodWrite (rs : ERS) (role : String) (freq : Dur) (sp sp' : StratParams)
+    (se : Bool) (st0 : ERSStatus) (aff : Bool) (now : Time) :
+    (ersFinish rs role freq sp (ersErrResult sp' now) [] [] se st0 aff now).noPodWrite := by
+  refine ⟨rfl, rfl, rfl, ?_, ?_⟩
+  · obtain ⟨b, hb⟩ := ersFinish_deletes_eq rs role freq sp (ersErrResult sp' now) [] [] se st0 aff now
+    rw [hb]; cases b <;> rfl
+  · obtain ⟨b, hb⟩ := ersFinish_creates_eq rs role freq sp (ersErrResult sp' now) [] [] se st0 aff now
+    rw [hb]; cases b <;> rfl
 
 theorem ersStrategy_canary {rs : ERS} {labelled : List String} {sp : StratParams} {now : Time}
     {r : StratResult} {adds removes : List String} {se : Bool}
